@@ -6,12 +6,12 @@ P=$1; I=$2; shift 2; CHECKS=${*:-$P}
 OUT=${SEED_PREFIX:-/tmp/seed}-$P-out; WT=/tmp/st-$P-$I
 git -C /repo worktree add -q --detach $WT HEAD || exit 2
 cd $WT && git apply $OUT/patch$I.diff || { echo "PATCH-DOES-NOT-APPLY"; git -C /repo worktree remove --force $WT; exit 2; }
-echo "== suite with change:"; CARGO_TARGET_DIR=/tmp/st-target cargo test --offline --lib 2>&1 | grep "test result" 
+echo "== suite with change:"; CARGO_TARGET_DIR=/tmp/st-target-$P cargo test --offline --lib 2>&1 | grep "test result" 
 if grep -q "cfg(feature = \"verif-hooks\")\|^use discv5::" $OUT/demo$I.rs 2>/dev/null; then
   mkdir -p tests && cp $OUT/demo$I.rs tests/seed_demo.rs
-  echo "== demo with change:"; CARGO_TARGET_DIR=/tmp/st-target cargo test --offline --features verif-hooks --test seed_demo 2>&1 | grep "test result\|panicked" | head -3
+  echo "== demo with change:"; CARGO_TARGET_DIR=/tmp/st-target-$P cargo test --offline --features verif-hooks --test seed_demo 2>&1 | grep "test result\|panicked" | head -3
   # (no `git stash`: the stash is shared by all worktrees of a repository)
-  git apply -R $OUT/patch$I.diff; echo "== demo without change:"; CARGO_TARGET_DIR=/tmp/st-target cargo test --offline --features verif-hooks --test seed_demo 2>&1 | grep "test result" | head -2; git apply $OUT/patch$I.diff
+  git apply -R $OUT/patch$I.diff; echo "== demo without change:"; CARGO_TARGET_DIR=/tmp/st-target-$P cargo test --offline --features verif-hooks --test seed_demo 2>&1 | grep "test result" | head -2; git apply $OUT/patch$I.diff
   rm -f tests/seed_demo.rs
 else echo "== demo: in-crate module test (see meta$I.txt)"; fi
 cd /verif
